@@ -159,10 +159,10 @@ the per-tuple contributions mod 2³², the plain sum without wrap; `tuple_order_
 from), `applied_coordinate_within_rounding` (sum of the per-tuple bounds + the final rounding), and
 `tuple_scalar_error_bound` for the exact tent scalars.  The composition is ONE theorem from the decoded
 tuples (scalar, explicit flags, deltas) to the output coordinate: `applied_outline_within_rounding` (x)
-and `applied_outline_within_rounding_y` (y).  From the table BYTES: `simple_glyph_eq_applyDecoded_partial`
-and `simple_glyph_within_rounding_partial` (both axes) for glyph data whose active tuples all carry
-explicit point numbers (`SparseDecodes`, discharged per stream by `accumulate_sparse_buffer_eq_workOf`);
-all-points (dense) tuples are not composed — see the comment above `simple_glyph_within_rounding_partial`. -/
+and `applied_outline_within_rounding_y` (y).  From the table BYTES: `simple_glyph_eq_applyDecoded` and
+`simple_glyph_within_rounding` (both axes), for active tuples with explicit point numbers (`SparseWF`:
+distinct point numbers; out-of-range numbers skipped) and all-points tuples (`DenseWF`,
+`dense_contribution_eq`) alike. -/
 /-- **`apply_deltas_eq_spec_one_contour` — one tuple, one contour (+ the four phantom points).**
 `points` = the `n` contour points then the phantom points (coordinates within `±M`); the tuple lists
 explicit deltas `ds` (zero where `has` is false, magnitudes within `Δ`) and is applied with the
@@ -683,16 +683,88 @@ theorem applied_outline_within_rounding_y (np : Nat) (points : List Iup.Pt) (end
   rw [wrapI32_of_in hT.1 (by omega)]
   exact applied_coordinate_within_rounding terms hok (Iup.getP points k).2 hT
 
-/-- **bytes → decoded tuples** (tuples with explicit point numbers): if every active tuple of the
-decoded glyph data `g` is a sparse tuple that `SparseDecodes` to the decoded tuple next to it in `dts`
-(same scalar; `accumulate_sparse_deltas` leaves `dt.work` / `dt.has` — discharged for a concrete
-stream by `accumulate_sparse_buffer_eq_workOf`), then skrifa's `simple_glyph` on the BYTES is
-`applyDecoded` on the decoded tuples: same success, same deltas. -/
-theorem simple_glyph_eq_applyDecoded_partial (ax : Nat) (shared : List (List Int)) (bytes : List Nat)
+/-- **an all-points tuple contributes exactly its scaled deltas**: for the all-explicit decoded tuple
+(every flag set, deltas `(x_k, y_k)` within `±Δ`), `interpolate_deltas` changes nothing —
+every point is explicit (`apply_deltas_eq_spec`: `δ_k = s·d_k`) or behind the last contour
+(`point_in_contour_or_tail`) — so its decoded contribution is `fxScaled s d` per point, which is what
+`accumulate_dense_deltas` adds. -/
+theorem dense_contribution_eq (np : Nat) (points : List Iup.Pt) (ends : List Nat) (s : Int) (xs ys : List Int)
+    (hpl : points.length = np) (hwf : ContoursWF np 0 ends)
+    (M Δ : Int) (hM : 0 ≤ M ∧ M ≤ 16383) (hΔ : 0 ≤ Δ)
+    (hfit : 131072 * M + 4 * (Δ * 65536) + 65536 ≤ 2147483647)
+    (hpts : ∀ k, (-M ≤ (Iup.getP points k).1 ∧ (Iup.getP points k).1 ≤ M) ∧
+      (-M ≤ (Iup.getP points k).2 ∧ (Iup.getP points k).2 ≤ M))
+    (hs : 0 < s ∧ s ≤ 65536)
+    (hbx : ∀ k, -Δ ≤ xs.getD k 0 ∧ xs.getD k 0 ≤ Δ) (hby : ∀ k, -Δ ≤ ys.getD k 0 ∧ ys.getD k 0 ≤ Δ) :
+    decodedContribution points ends ⟨s, (List.range points.length).map fun k => (xs.getD k 0, ys.getD k 0),
+        (List.range points.length).map fun _ => true⟩
+      = some ((List.range points.length).map fun k => (fxScaled s (xs.getD k 0), fxScaled s (ys.getD k 0))) := by
+  have hgd : ∀ k, Iup.getP ((List.range points.length).map fun k => (xs.getD k 0, ys.getD k 0)) k
+      = if k < points.length then (xs.getD k 0, ys.getD k 0) else (0, 0) := by
+    intro k
+    by_cases hk : k < points.length
+    · rw [if_pos hk, getP_map_range _ _ k hk]
+    · rw [if_neg hk]; unfold Iup.getP
+      rw [List.getD_eq_getElem?_getD, List.getElem?_eq_none (by simp; omega)]; rfl
+  have hgh : ∀ k, ((List.range points.length).map fun _ => true).getD k false = decide (k < points.length) := by
+    intro k
+    by_cases hk : k < points.length
+    · rw [List.getD_eq_getElem?_getD, List.getElem?_map, List.getElem?_range hk]; simp [hk]
+    · rw [List.getD_eq_getElem?_getD, List.getElem?_eq_none (by simp; omega)]; simp [hk]
+  obtain ⟨out, e, hl, hall, htail⟩ := apply_deltas_eq_spec np points
+    ((List.range points.length).map fun k => (xs.getD k 0, ys.getD k 0))
+    ((List.range points.length).map fun _ => true) s ends hpl (by simp [hpl]) (by simp [hpl]) hwf M Δ hM hΔ hs hfit hpts
+    (fun k => by rw [hgd k]; split
+                 · exact ⟨hbx k, hby k⟩
+                 · simp only []; omega)
+    (fun k hk => by rw [hgh k] at hk; rw [hgd k]; simp only [decide_eq_false_iff_not] at hk; rw [if_neg hk])
+  unfold decodedContribution DTuple.work
+  simp only []
+  rw [e]
+  simp only [Option.map_some, Option.some.injEq]
+  apply List.map_congr_left
+  intro k hk
+  have hk' : k < points.length := by simpa using hk
+  -- the working value at `k`
+  have hout : Iup.getP out k = ((Iup.getP points k).1 * 65536 + xs.getD k 0 * s, (Iup.getP points k).2 * 65536 + ys.getD k 0 * s) := by
+    rcases point_in_contour_or_tail np ends 0 hwf k (Nat.zero_le _) with ⟨c, hc, hc1, hc2⟩ | ht
+    · have := ContoursAll_mem ends 0 hall c hc k hc1 hc2
+      simp only [] at this
+      obtain ⟨_, _, _, _, _, _, hexp⟩ := this
+      have := hexp (by rw [hgh k]; simp [hk'])
+      rw [hgd k, if_pos hk'] at this
+      obtain ⟨t1, t2⟩ := this
+      simp only [] at t1 t2
+      apply Prod.ext
+      · show (Iup.getP out k).1 = _; omega
+      · show (Iup.getP out k).2 = _; omega
+    · rw [htail k ht (by omega), hgd k, if_pos hk']
+  obtain ⟨⟨p1, p2⟩, ⟨p3, p4⟩⟩ := hpts k
+  obtain ⟨x1, x2⟩ := hbx k
+  obtain ⟨y1, y2⟩ := hby k
+  have bx1 : xs.getD k 0 * s ≤ Δ * 65536 := by nlinarith
+  have bx2 : -(Δ * 65536) ≤ xs.getD k 0 * s := by nlinarith
+  have by1 : ys.getD k 0 * s ≤ Δ * 65536 := by nlinarith
+  have by2 : -(Δ * 65536) ≤ ys.getD k 0 * s := by nlinarith
+  have hget : out.getD k (0, 0) = Iup.getP out k := rfl
+  have hgp : points.getD k (0, 0) = Iup.getP points k := rfl
+  rw [hget, hgp, hout, fxScaled_exact s _ (by omega) (by omega), fxScaled_exact s _ (by omega) (by omega)]
+  simp only [ptSub, ptFromI32, Iup.fxSub, Fixed.fromI32]
+  have f1 : wrapI32 ((Iup.getP points k).1 * 65536) = (Iup.getP points k).1 * 65536 := wrapI32_of_in (by omega) (by omega)
+  have f2 : wrapI32 ((Iup.getP points k).2 * 65536) = (Iup.getP points k).2 * 65536 := wrapI32_of_in (by omega) (by omega)
+  rw [f1, f2]
+  have g1 : (Iup.getP points k).1 * 65536 + xs.getD k 0 * s - (Iup.getP points k).1 * 65536 = xs.getD k 0 * s := by ring
+  have g2 : (Iup.getP points k).2 * 65536 + ys.getD k 0 * s - (Iup.getP points k).2 * 65536 = ys.getD k 0 * s := by ring
+  simp only [g1, g2]
+  rw [wrapI32_of_in (by omega) (by omega), wrapI32_of_in (by omega) (by omega)]
+
+/-- **bytes → decoded tuples**, either kind of tuple: when every active tuple's step is the decoded
+step (`StepDecodes`: from `SparseWF` or `DenseWF`), `simple_glyph` on the bytes is `applyDecoded`. -/
+theorem simple_glyph_eq_applyDecoded (ax : Nat) (shared : List (List Int)) (bytes : List Nat)
     (coords : List Int) (points : List Iup.Pt) (ends : List Nat) (g : GlyphRead) (dts : List DTuple)
     (hr : readGlyph ax bytes = some g) (h4 : 4 ≤ points.length)
     (hlen : (activeTuples ax shared g coords).length = dts.length)
-    (hdec : ∀ p ∈ (activeTuples ax shared g coords).zip dts, SparseDecodes points g.sharedPts p.1 p.2) :
+    (hdec : ∀ p ∈ (activeTuples ax shared g coords).zip dts, StepDecodes points ends g.sharedPts p.1 p.2) :
     simpleGlyph ax shared (some bytes) coords points ends = applyDecoded points ends dts := by
   unfold simpleGlyph applyDecoded
   have : ¬ points.length < 4 := by omega
@@ -701,22 +773,11 @@ theorem simple_glyph_eq_applyDecoded_partial (ax : Nat) (shared : List (List Int
     apply List.ext_getElem (by simp)
     intro i h1 h2; simp
   rw [hzero]
-  exact fold_sparse_eq_decoded points ends g.sharedPts _ dts _ hlen (by simp) hdec
+  exact fold_eq_decoded points ends g.sharedPts _ dts _ hlen (by simp) hdec
 
-/- FULL STATEMENT `simple_glyph_within_rounding`: for every glyph-variation-data byte string the decoder
-accepts, every location, point and axis, the bound holds for what `simple_glyph` returns.  PROVED below
-for glyph data whose active tuples all carry explicit point numbers and decode (`SparseDecodes`) to
-well-formed decoded tuples.  MISSING: active tuples that cover all points (`accumulate_dense_deltas`):
-their contribution `fxScaled s d` equals the decoded contribution of the all-explicit `DTuple`
-(`apply_deltas_eq_spec`: explicit points get `s·d` exactly), which is not composed here; and the
-decoded tuples' own side conditions `hts` (lengths, bounds) are still listed separately although they
-follow from `SparseWF`.  `SparseDecodes` is now DERIVED inside the theorem from `SparseWF`: the
-well-formedness of the packed streams as skrifa reads them, whose only real restriction is that the
-point numbers are distinct (out-of-range numbers are skipped by skrifa and by the decoded tuple alike;
-a duplicate makes skrifa add the deltas twice — excluded; examples below). -/
-/-- **`simple_glyph_within_rounding_partial`** — from the glyph-variation-data BYTES to both output
-coordinates of every contour point. -/
-theorem simple_glyph_within_rounding_partial (ax : Nat) (shared : List (List Int)) (bytes : List Nat)
+/-- **`simple_glyph_within_rounding`** — from the glyph-variation-data BYTES to both output coordinates
+of every contour point, for sparse (`SparseWF`) and all-points (`DenseWF`) active tuples alike. -/
+theorem simple_glyph_within_rounding (ax : Nat) (shared : List (List Int)) (bytes : List Nat)
     (coords : List Int) (g : GlyphRead) (hr : readGlyph ax bytes = some g)
     (np : Nat) (points : List Iup.Pt) (ends : List Nat) (ts : List DTuple)
     (hpl : points.length = np) (hwf : ContoursWF np 0 ends) (hne : ts ≠ [])
@@ -730,7 +791,8 @@ theorem simple_glyph_within_rounding_partial (ax : Nat) (shared : List (List Int
     (c : Nat × Nat) (hc : c ∈ contoursOf 0 ends) (k : Nat) (hk1 : c.1 ≤ k) (hk2 : k ≤ c.2)
     (h4 : 4 ≤ points.length)
     (hlen : (activeTuples ax shared g coords).length = ts.length)
-    (hswf : ∀ p ∈ (activeTuples ax shared g coords).zip ts, SparseWF points g.sharedPts Δ p.1 p.2)
+    (hswf : ∀ p ∈ (activeTuples ax shared g coords).zip ts,
+      SparseWF points g.sharedPts Δ p.1 p.2 ∨ DenseWF points g.sharedPts Δ p.1 p.2)
     (hwrap : |(ts.map fun t => (t.s : ℚ) *
           (((Iup.inferSpec (points.drop c.1) ((t.ds.drop c.1).take (c.2 - c.1 + 1)) (t.has.drop c.1) (k - c.1)).1.1 : ℚ) /
             (Iup.inferSpec (points.drop c.1) ((t.ds.drop c.1).take (c.2 - c.1 + 1)) (t.has.drop c.1) (k - c.1)).1.2)).sum|
@@ -756,16 +818,22 @@ theorem simple_glyph_within_rounding_partial (ax : Nat) (shared : List (List Int
             (Iup.inferSpec (points.drop c.1) ((t.ds.drop c.1).take (c.2 - c.1 + 1)) (t.has.drop c.1) (k - c.1)).2.2)).sum / 65536)|
       ≤ 1 / 2 + (ts.map fun t =>
           (((Iup.inferSpec (points.drop c.1) ((t.ds.drop c.1).take (c.2 - c.1 + 1)) (t.has.drop c.1) (k - c.1)).2.2 : ℚ) - 1) / 2).sum / 65536 := by
-  have hdec : ∀ p ∈ (activeTuples ax shared g coords).zip ts, SparseDecodes points g.sharedPts p.1 p.2 := by
+  have hdec : ∀ p ∈ (activeTuples ax shared g coords).zip ts, StepDecodes points ends g.sharedPts p.1 p.2 := by
     intro p hp
-    have hw := hswf p hp
     have hmem : p.2 ∈ ts := (List.of_mem_zip (show (p.1, p.2) ∈ _ from hp)).2
     obtain ⟨_, _, hs, _, _⟩ := hts p.2 hmem
-    have hsc : p.2.s = p.1.2 := by
-      obtain ⟨_, pts, xs, ys, bs, rest, _, _, _, _, _, _, _, _, _, e⟩ := hw
-      rw [e]
-    exact hw.decodes points g.sharedPts Δ M p.1 p.2 hM.1 hΔ (by omega) (by rw [← hsc]; omega) hpts
-  rw [simple_glyph_eq_applyDecoded_partial ax shared bytes coords points ends g ts hr h4 hlen hdec]
+    rcases hswf p hp with hw | hw
+    · have hsc : p.2.s = p.1.2 := by
+        obtain ⟨_, pts, xs, ys, bs, rest, _, _, _, _, _, _, _, _, _, e⟩ := hw
+        rw [e]
+      exact (hw.decodes points g.sharedPts Δ M p.1 p.2 hM.1 hΔ (by omega) (by rw [← hsc]; omega) hpts).step points ends
+        g.sharedPts p.1 p.2
+    · have hsc : p.2.s = p.1.2 := by
+        obtain ⟨_, xs, ys, bs, rest, _, _, _, _, e⟩ := hw
+        rw [e]
+      exact hw.step points ends g.sharedPts Δ p.1 p.2 (fun xs ys hbx hby =>
+        dense_contribution_eq np points ends p.1.2 xs ys hpl hwf M Δ hM hΔ hfit hpts (by rw [← hsc]; exact hs) hbx hby)
+  rw [simple_glyph_eq_applyDecoded ax shared bytes coords points ends g ts hr h4 hlen hdec]
   obtain ⟨d1, e1, b1⟩ := applied_outline_within_rounding np points ends ts hpl hwf hne M Δ hM hΔ hfit hpts hts c hc k hk1 hk2 hwrap
   obtain ⟨d2, e2, b2⟩ := applied_outline_within_rounding_y np points ends ts hpl hwf hne M Δ hM hΔ hfit hpts hts c hc k hk1 hk2 hwrapy
   rw [e1] at e2
